@@ -198,7 +198,7 @@ def judge_c02(spec, gs, tbs, inputs, diags, dumps, maps, tdiffs, byk, jobs, info
     crash_check('C02', gs, jobs, byk, info, out, 'site:parse@crash')
     for gi, g in enumerate(gs):
         C['grammars'] += 1
-        if not parseable(gi, gs, tbs, diags, tdiffs): C['grammars_skipped'] += 1; continue
+        if not parseable(gi, gs, tbs, diags, tdiffs, need_match=False): C['grammars_skipped'] += 1; continue
         tb = tbs[gi]
         for idx, data in enumerate(inputs[gi]):
             r = byk.get((gi, idx, 0))
@@ -261,7 +261,7 @@ def judge_c10(spec, gs, tbs, inputs, diags, dumps, maps, tdiffs, byk, jobs, info
     OPT = {0: (True, True), 7: (False, True), 8: (True, False), 9: (False, False)}
     for gi, g in enumerate(gs):
         C['grammars'] += 1
-        if not parseable(gi, gs, tbs, diags, tdiffs): C['grammars_skipped'] += 1; continue
+        if not parseable(gi, gs, tbs, diags, tdiffs, need_match=False): C['grammars_skipped'] += 1; continue
         tb = tbs[gi]
         for idx, data in enumerate(inputs[gi]):
             for mode, (sw, sn) in OPT.items():
@@ -292,7 +292,7 @@ def judge_c14(spec, gs, tbs, inputs, diags, dumps, maps, tdiffs, byk, jobs, info
     crash_check('C14', gs, jobs, byk, info, out, 'site:parse@crash')
     for gi, g in enumerate(gs):
         C['grammars'] += 1
-        if not parseable(gi, gs, tbs, diags, tdiffs): C['grammars_skipped'] += 1; continue
+        if not parseable(gi, gs, tbs, diags, tdiffs, need_match=False): C['grammars_skipped'] += 1; continue
         tb = tbs[gi]
         for idx, data in enumerate(inputs[gi]):
             r = byk.get((gi, idx, 0))
@@ -650,7 +650,7 @@ def judge_c13(spec, gs, tbs, inputs, diags, dumps, maps, tdiffs, byk, jobs, info
     crash_check('C13', gs, jobs, byk, info, out, 'site:context_parse@crash')
     for gi, g in enumerate(gs):
         C['grammars'] += 1
-        if not parseable(gi, gs, tbs, diags, tdiffs): C['grammars_skipped'] += 1; continue
+        if not parseable(gi, gs, tbs, diags, tdiffs, need_match=False): C['grammars_skipped'] += 1; continue
         tb = tbs[gi]
         isctx = any(r.ftor == 'x' for r in g.rules)
         for idx, data in enumerate(inputs[gi]):
@@ -691,7 +691,7 @@ def judge_c18(spec, gs, tbs, inputs, diags, dumps, maps, tdiffs, byk, jobs, info
     OPT = {0: (True, True), 1: (True, True), 3: (True, True), 4: (True, True), 7: (False, True), 8: (True, False), 9: (False, False)}
     for gi, g in enumerate(gs):
         C['grammars'] += 1
-        if not parseable(gi, gs, tbs, diags, tdiffs): C['grammars_skipped'] += 1; continue
+        if not parseable(gi, gs, tbs, diags, tdiffs, need_match=False): C['grammars_skipped'] += 1; continue
         tb = tbs[gi]
         for idx, data in enumerate(inputs[gi]):
             for mode, (sw, sn) in OPT.items():
